@@ -93,6 +93,7 @@ def search_bfs():
     t.append(T('bfs_append_fwd', [REL('append', L(P(0)), L(P(1), P(2)), q)], 'multiset'))
     t.append(T('bfs_cond_keyword', [OP('cond', EQ(q, P(0)), [EQ(q, P(1)), NE(q, P(0))])], 'multiset'))
     t.append(T('bfs_fresh_shadow', [FRESH(['x'], EQ(x, P(0)), FRESH(['x'], EQ(x, P(1)), EQ(q, x)))], 'multiset'))
+    t.append(T('bfs_disj_node', [FRESH(['x'], EQ(q, L(x, P(0))), OP('bfsor', REL('member', x, L(P(1), P(2))), [EQ(x, P(0)), NE(x, P(1))], FALSE, EQ(x, P(3))))], 'multiset'))
     t.append(T('bfs_conde_in_conj_last', [FRESH(['x'], EQ(q, L(x, P(0))), OP('conde', EQ(x, P(1)), EQ(x, P(2)), EQ(x, P(0))), NE(x, P(0)))], 'multiset'))
     return t
 
@@ -109,6 +110,9 @@ def search_dfs():
     t.append(T('dfs_nested_cond', [('dfs', [OP('cond', OP('cond', EQ(q, P(0)), EQ(q, P(1))), OP('cond', EQ(q, P(2)), FALSE, EQ(q, P(3))))])], 'sequence'))
     t.append(T('dfs_cond_then_member', [FRESH(['x', 'y'], ('dfs', [OP('cond', EQ(x, P(0)), EQ(x, P(1))), mem3(y, (2, 3)), NE(x, y), EQ(q, L(x, y))]))], 'sequence'))
     t.append(T('dfs_append_split', [FRESH(['x', 'y'], ('dfs', [REL('append', x, y, L(P(0), P(1), P(2))), EQ(q, L(x, y))]))], 'sequence'))
+    t.append(T('dfs_disj_node', [('dfs', [OP('dfsor', mem3(q, (0, 1, 2)), mem3(q, (3, 4)), mem3(q, (5, 0)))])], 'sequence'))
+    t.append(T('dfs_disj_node_in_conj', [FRESH(['x', 'y'], ('dfs', [mem3(x, (0, 1)), OP('dfsor', [mem3(y, (2, 3))], [mem3(y, (4, 5)), NE(x, y)]), EQ(q, L(x, y))]))], 'sequence'))
+    t.append(T('dfs_disj_node_from_bfs', [OP('dfsor', mem3(q, (0, 1, 2)), mem3(q, (3, 4)))], 'sequence'))
     t.append(T('dfs_three_levels', [FRESH(['x', 'y', 'z'], ('dfs', [mem3(x, (0, 1)), mem3(y, (1, 2)), mem3(z, (0, 2)), NE(x, z), EQ(q, L(x, y, z))]))], 'sequence'))
     return t
 
@@ -135,6 +139,13 @@ def committed():
     t.append(T('onceo_two_goals', [FRESH(['x'], EQ(q, x), ('onceo', [('dfs', [mem(x, (0, 1, 2))]), NE(x, P(0))]))], 'multiset'))
     t.append(T('onceo_conj_filter', [FRESH(['x', 'y'], EQ(q, L(x, y)), ('onceo', [('conj', [('dfs', [mem(x, (0, 1))]), ('dfs', [mem(y, (1, 2))]), NE(x, y)])]))], 'multiset'))
     t.append(T('onceo_fail', [('onceo', [EQ(q, P(0)), EQ(q, P(1))])], 'multiset'))
+    # heads that fail only after lazy steps (member over a list that does not contain the element): the next clause runs exactly once
+    far = N(7)
+    t.append(T('conda_lazy_failing_head', [OP('conda', [REL('member', far, L(P(0), P(1))), EQ(q, P(0))], [EQ(q, P(2))])], 'multiset'))
+    t.append(T('condu_lazy_failing_head', [OP('condu', [REL('member', far, L(P(0), P(1), P(2))), EQ(q, P(0))], [REL('member', q, L(P(1), P(2)))])], 'multiset'))
+    t.append(T('conda_two_lazy_failing_heads', [OP('conda', [REL('member', far, L(P(0))), EQ(q, P(0))], [REL('member', far, L(P(1), P(2))), EQ(q, P(1))], [EQ(q, P(2))], [EQ(q, P(0))])], 'multiset'))
+    t.append(T('conda_lazy_succeeding_head', [FRESH(['x'], EQ(q, x), OP('conda', [REL('member', x, L(P(0), P(1))), NE(x, P(2))], [EQ(x, P(2))]))], 'multiset'))
+    t.append(T('onceo_lazy_head', [FRESH(['x'], EQ(q, x), ('onceo', [REL('append', L(P(0)), L(P(1)), x)]))], 'multiset'))
     t.append(T('onceo_second_goal_many', [FRESH(['x', 'y'], EQ(q, L(x, y)), ('onceo', [EQ(x, P(0)), ('dfs', [mem(y, (1, 2))])]))], 'multiset'))
     return t
 
@@ -154,6 +165,17 @@ def branches():
     for i, (A, B) in enumerate([(A1, B1), (A2, B2), (A3, B3), (B3, A3), (A4, B4), (B1, A1)]):
         t.append(T('iso%d_both' % i, pre + [OP('conde', A, B)], 'multiset'))
         t.append(T('iso%d_both_mid' % i, pre + [OP('conde', A, B, FALSE)], 'multiset'))
+    # state that is shared by reference between sibling branches: domain store, constraint store, substitution, terms
+    t.append(T('iso_fd_domain_removed_in_sibling', [FRESH(['x'], INFD(x, [1, 2]), OP('conde', EQ(x, P(0)), EQ(x, P(1)), EQ(x, P(2))), EQ(q, x))], 'multiset', 40))
+    t.append(T('iso_fd_domain_two_vars', [FRESH(['x', 'y'], EQ(q, L(x, y)), INFDR(L(x, y), 0, 1), OP('conde', [EQ(x, P(0))], [EQ(x, P(1)), EQ(y, P(2))], [EQ(y, P(0))]))], 'multiset', 40))
+    t.append(T('iso_fd_singleton_binding_in_sibling', [FRESH(['x', 'y'], EQ(q, L(x, y)), INFDR(x, 1, 3), OP('conde', [REL('ltefd', x, P(0)), EQ(y, N(1))], [EQ(y, N(2))]))], 'multiset', 40))
+    t.append(T('iso_fd_constraint_in_sibling', [FRESH(['x', 'z'], EQ(q, L(x, z)), INFDR(L(x, z), 0, 2), OP('conde', [REL('ltfd', x, z)], [REL('diseqfd', x, P(0))], [EQ(x, z)]))], 'multiset', 60))
+    t.append(T('iso_diseq_store_in_sibling', [FRESH(['x', 'z'], EQ(q, L(x, z)), NE(x, P(0)), OP('conde', [NE(L(x, z), L(P(1), P(2))), EQ(x, P(1))], [EQ(z, P(2)), EQ(x, P(1))], [NE(x, P(1)), EQ(x, P(0))]))], 'multiset', 40))
+    t.append(T('iso_term_mutated_in_sibling', [FRESH(['x'], EQ(x, L(P(0), P(1))), OP('conde', REL('pusho', x, P(2), q), EQ(q, x), [REL('pusho', x, P(3), q)]))], 'multiset', 40))
+    abc_ = L(V('a'), V('b'), V('c'))
+    t.append(T('iso_hidden_labeling_other_branch', [OP('conde', EQ(q, P(0)), FRESH(['a', 'b', 'c'], EQ(q, P(1)), INFD(abc_, [1, 2]), REL('distinctfd', abc_)))], 'multiset', 40))
+    t.append(T('iso_hidden_labeling_shared_prefix', [FRESH(['a'], INFD(V('a'), [1, 2, 3]), OP('conde', EQ(q, P(0)), FRESH(['b', 'c', 'd'], EQ(q, P(1)), INFD(L(V('b'), V('c'), V('d')), [1, 2]), REL('distinctfd', L(V('b'), V('c'), V('d'))))))], 'multiset', 40))
+    t.append(T('iso_hidden_domain_vars_per_branch', [FRESH(['a', 'b', 'c', 'd'], OP('conde', [INFD(V('a'), [1, 2]), EQ(q, N(1))], [INFD(L(V('b'), V('c'), V('d')), [1, 2]), REL('distinctfd', L(V('b'), V('c'), V('d'))), EQ(q, N(2))], [INFD(L(V('a'), V('b')), [1, 2]), REL('diseqfd', V('a'), V('b')), EQ(q, N(3))]))], 'multiset', 40))
     return t
 
 
@@ -173,11 +195,16 @@ def tree_constraints():
         ('d10', [EQ(q, L(x, y)), NE(x, y), EQ(x, y)]),
         ('d11', [EQ(q, L(x, y)), EQ(x, L(y)), NE(x, L(P(0)))]),
     ]
+    HM = dict(hash_modes=('reverse',))      # the constraint store is a HashSet: answers must not depend on its order
     for name, body in base:
         head, rest = body[0], body[1:]
         perms = list(itertools.permutations(rest))
         for i, pm in enumerate(perms[:6]):
-            t.append(T('tree_%s_o%d' % (name, i), [FRESH(['x', 'y'], head, *pm)], 'multiset'))
+            t.append(T('tree_%s_o%d' % (name, i), [FRESH(['x', 'y'], head, *pm)], 'multiset', **HM))
+    # a stronger disequality posted after a weaker one, with other constraints in the store (normalisation must not lose them)
+    xyz, w_ = L(x, y, z), V('w')
+    t.append(T('tree_subsume_keep_others', [FRESH(['x', 'y', 'z'], EQ(q, xyz), NE(y, P(0)), NE(L(x, y), L(P(1), P(2))), NE(z, P(0)), NE(x, P(1)), OP('conde', EQ(y, P(0)), EQ(z, P(0)), EQ(x, P(1)), EQ(xyz, L(P(2), P(2), P(2)))))], 'multiset', 24, hash_modes=('reverse', 'rotate')))
+    t.append(T('tree_subsume_keep_others4', [FRESH(['x', 'y', 'z', 'w'], EQ(q, L(x, y, z, w_)), NE(y, P(0)), NE(z, P(0)), NE(L(x, w_), L(P(1), P(2))), NE(w_, P(0)), NE(x, P(1)), OP('conde', EQ(y, P(0)), EQ(z, P(0)), EQ(w_, P(0)), EQ(x, P(1)), TRUE))], 'multiset', 24, hash_modes=('reverse', 'rotate')))
     return t
 
 
@@ -239,6 +266,11 @@ def project_ops():
     t.append(T('project_deep_walk_member', [FRESH(['x', 'y'], EQ(x, L(y)), REL('member', y, L(P(0), P(1))), ('closure', [('project', ['x'], [REL('succ_head', x, q)])]))], 'multiset'))
     t.append(T('project_two_states_closure', [FRESH(['x'], OP('conde', EQ(x, P(0)), EQ(x, P(1))), ('closure', [('project', ['x'], [S(x, q)])]))], 'multiset'))
     t.append(T('project_member_closure', [FRESH(['x', 'y'], REL('member', y, L(P(0), P(1))), EQ(x, L(y)), ('closure', [('project', ['x'], [EQ(q, x)])]))], 'multiset'))
+    SV = lambda u, v, o: REL('samevar', u, v, o)
+    t.append(T('project_aliased_unbound', [FRESH(['x', 'y', 'z'], EQ(x, y), ('project', ['x', 'y', 'z'], [FRESH(['a', 'b'], SV(x, y, V('a')), SV(x, z, V('b')), EQ(q, L(V('a'), V('b'))))]))], 'multiset'))
+    t.append(T('project_aliased_chain', [FRESH(['x', 'y', 'z'], EQ(x, y), EQ(z, x), ('project', ['x', 'z'], [SV(x, z, q)]))], 'multiset'))
+    t.append(T('project_unbound_then_bind', [FRESH(['x'], ('project', ['x'], [EQ(x, P(0)), EQ(q, L(x))]))], 'multiset'))
+    t.append(T('project_unbound_default', [FRESH(['x'], OP('conde', EQ(x, P(0)), TRUE), ('closure', [('project', ['x'], [OP('conda', [REL('succ', x, q)], [EQ(x, P(1)), EQ(q, x)])])]))], 'multiset'))
     t.append(T('project_two_states_direct', [FRESH(['x'], OP('conde', EQ(x, P(0)), EQ(x, P(1))), ('project', ['x'], [S(x, q)]))], 'multiset'))
     return t
 
@@ -472,6 +504,11 @@ def _finite_domains():
     t.append(T('fd_store_order_in_flight', [FRESH(['a', 'b', 'c', 'h1', 'h2'], EQ(q, all5), INFDR(all5, 0, 4), *inflight)], 'multiset', 80, **HM))
     t.append(T('fd_store_order_in_flight_dom_last', [FRESH(['a', 'b', 'c', 'h1', 'h2'], EQ(q, all5), *(inflight + [INFDR(all5, 0, 4)]))], 'multiset', 80, **HM))
     t.append(T('fd_first_run_in_flight', [FRESH(['x', 'y', 'z'], REL('plusfd', x, P(0), y), INFD(x, [0, 3, 4]), INFDR(y, 1, 3), EQ(q, xyz), REL('distinctfd', L(z, x, y)), INFDR(z, 0, 3), REL('timesfd', x, z, y))], 'multiset', 40))
+    ab = L(V('a'), V('b'))
+    t.append(T('fd_exclude_resolves_member', [FRESH(['a', 'b'], EQ(q, ab), INFD(V('a'), [1, 4, 6]), INFDR(V('b'), 1, 6), REL('ltefd', V('b'), V('a')), REL('distinctfd', L(V('a'), V('b'), N(1), N(6))))], 'multiset', 40))
+    t.append(T('fd_exclude_resolves_member_param', [FRESH(['a', 'b'], EQ(q, ab), INFD(V('a'), [0, 2, 3]), INFDR(V('b'), 0, 3), REL('ltefd', V('b'), V('a')), REL('distinctfd', L(V('a'), V('b'), P(0), P(1))))], 'multiset', 40))
+    t.append(T('fd_alias_then_narrow_to_singleton', [FRESH(['a', 'x', 'y'], EQ(q, L(x, y)), EQ(V('a'), x), REL('diseqfd', V('a'), y), INFD(y, [3]), INFD(x, [3, 4, 5]), INFD(x, [1, 2, 3]))], 'multiset', 40))
+    t.append(T('fd_alias_lt_narrow', [FRESH(['a', 'x', 'y'], EQ(q, L(x, y)), EQ(V('a'), x), REL('ltfd', V('a'), y), INFDR(y, 0, 2), INFD(x, [2, 4]), INFDR(x, 0, 3))], 'multiset', 40))
     t.append(T('fd_list_query', [FRESH(['x', 'y'], EQ(q, L(L(x), y)), INFDR(L(x, y), 0, 1), REL('diseqfd', x, y))], 'multiset', 40))
     return t
 
@@ -712,4 +749,41 @@ def random_fd_programs(seed, n, tag='rf'):
         rng.shuffle(goals)
         goals.insert(rng.randrange(len(goals) + 1), EQ(q, L(*[V(v) for v in vs])))
         out.append(T('%s%d_s%d' % (tag, i, seed), [FRESH(vs, *goals)], 'multiset', 80))
+    return out
+
+
+def _rgoal_dfs(rng, vs, depth):
+    r = rng.random()
+    if r < 0.3:
+        return EQ(_rterm(rng, vs), _rterm(rng, vs))
+    if r < 0.42:
+        return NE(_rterm(rng, vs), _rterm(rng, vs))
+    if r < 0.65:
+        return REL('member', V(rng.choice(vs)), L(*[_rterm(rng, vs, 0) for _ in range(rng.randrange(2, 4))]))
+    if r < 0.72:
+        a, b = rng.sample(vs, 2) if len(vs) > 1 else (vs[0], vs[0])
+        return REL('append', V(a), V(b), L(*[_rterm(rng, vs, 0, atoms=True) for _ in range(rng.randrange(1, 3))]))
+    if depth <= 0:
+        return EQ(V(rng.choice(vs)), _rterm(rng, vs, 0))
+    if r < 0.92:
+        cls = []
+        for _ in range(rng.randrange(2, 4)):
+            cl = [_rgoal_dfs(rng, vs, depth - 1) for _ in range(rng.randrange(1, 3))]
+            if rng.random() < 0.1:
+                cl.insert(rng.randrange(len(cl) + 1), rng.choice([TRUE, FALSE]))
+            cls.append(cl)
+        return ('cond', cls)
+    return ('conj', [_rgoal_dfs(rng, vs, depth - 1) for _ in range(2)])
+
+
+def random_dfs_programs(seed, n, tag='rd'):
+    """Random terminating programs inside `dfs { }` (==, !=, member, append, cond, bracketed conjunctions): the answer SEQUENCE
+    must be the depth-first, left-to-right one."""
+    rng = random.Random(seed * 7919 + 13)
+    out = []
+    for i in range(n):
+        vs = ['x', 'y', 'z'][:rng.randrange(2, 4)]
+        goals = [_rgoal_dfs(rng, vs, 2) for _ in range(rng.randrange(2, 5))]
+        goals.insert(rng.randrange(len(goals) + 1), EQ(q, L(*[V(v) for v in vs])))
+        out.append(T('%s%d_s%d' % (tag, i, seed), [FRESH(vs, ('dfs', goals))], 'sequence', 200))
     return out
